@@ -4,7 +4,9 @@ package tars
 // `go test -overlay`; not part of the repository). Only trivial getters/setters.
 
 import (
+	"reflect"
 	"sync/atomic"
+	"unsafe"
 )
 
 // VerifBindDefaultApp gives a Protocol built with NewTarsProtocol the default application
@@ -32,11 +34,30 @@ func (s *ServantProxy) VerifAdapters() []*AdapterProxy {
 	return out
 }
 
-// VerifPending is the total size of the pending-reply tables of the proxy's adapters.
+// VerifPending is the total size of the pending-reply tables of the proxy's adapters
+// (field resp of AdapterProxy), or -1 when the table cannot be observed. The field is
+// reached by name and counted through its Range method, whatever its type (today a
+// sync.Map), so that a change of its representation does not break the harness build.
 func (s *ServantProxy) VerifPending() int {
 	n := 0
 	for _, a := range s.VerifAdapters() {
-		a.resp.Range(func(k, v interface{}) bool { n++; return true })
+		f := reflect.ValueOf(a).Elem().FieldByName("resp")
+		if !f.IsValid() {
+			return -1
+		}
+		var p interface{}
+		if f.Kind() == reflect.Ptr {
+			p = reflect.NewAt(f.Type(), unsafe.Pointer(f.UnsafeAddr())).Elem().Interface()
+		} else {
+			p = reflect.NewAt(f.Type(), unsafe.Pointer(f.UnsafeAddr())).Interface()
+		}
+		r, ok := p.(interface {
+			Range(func(k, v interface{}) bool)
+		})
+		if !ok {
+			return -1
+		}
+		r.Range(func(k, v interface{}) bool { n++; return true })
 	}
 	return n
 }
